@@ -200,16 +200,34 @@ def helpers(ctx):
             p, q = ex_.load(st_, t.f[0]), ex_.load(st_, t.f[1])
             pairs.append((p.f[0].what, q.f[0].what))
         log.append(('miller_loop', pairs))
-        return Opaque('ML%d' % len(log))
+        return Opaque(('PROD', tuple(pairs), False))
+
+    # Fq12 values are formal products: ('PROD', multiset of (P,Q) pairs whose Miller-loop outputs are multiplied in, final-exponentiated?)
+    # -- a product of Miller loops is a Miller loop of the concatenation (C11 joint-loop claim), final exponentiation is multiplicative (C12)
+    def h_one(ex_, st_, m, a):
+        return Opaque(('PROD', (), None))
+
+    def h_mul(ex_, st_, m, a):
+        x, y = deref(ex_, st_, a[0]), deref(ex_, st_, a[1])
+        if not (isinstance(x, Opaque) and isinstance(y, Opaque) and x.what[0] == 'PROD' and y.what[0] == 'PROD'):
+            raise Inconclusive('Fq12 product of %r and %r' % (x, y))
+        fx, fy = x.what[2], y.what[2]
+        if fx is not None and fy is not None and fx != fy:
+            raise Inconclusive('product of a final-exponentiated and a raw Miller value')
+        ex_.store(st_, a[0], Opaque(('PROD', x.what[1] + y.what[1], fx if fx is not None else fy)))
+        return UNIT
 
     def h_fe(ex_, st_, m, a):
         v = deref(ex_, st_, a[0])
-        log.append(('final_exponentiation', v.what))
+        if not (isinstance(v, Opaque) and v.what[0] == 'PROD') or v.what[2] is True:
+            raise Inconclusive('final exponentiation of %r' % (v,))
+        log.append(('final_exponentiation', len(v.what[1])))
         from mirsym.models import some
-        return some(Opaque('FE(%s)' % v.what))
+        return some(Opaque(('PROD', v.what[1], True)))
     ident = lambda ex_, st_, m, a: a[0]
     extra = [(r'<.+ as CurveAffine>::prepare', None), (r'<Bls12 as Engine>::miller_loop::<.+>', h_ml), (r'<Bls12 as Engine>::final_exponentiation', h_fe),
-             (r'<.+ as Into<.+>>::into', ident)]
+             (r'<.+ as Into<.+>>::into', ident), (r'<(?:fq12::Fq12|<\w+ as Engine>::Fqk) as (?:ff::)?Field>::one', h_one),
+             (r'<(?:fq12::Fq12|<\w+ as Engine>::Fqk) as (?:ff::)?Field>::mul_assign', h_mul)]
     extra[0] = (r'<ec::g1::G1Affine as CurveAffine>::prepare', h_prep('P'))
     extra.insert(1, (r'<ec::g2::G2Affine as CurveAffine>::prepare', h_prep('Q')))
     # closures `|v| v.prepare()` are executed from MIR; Iterator::map/collect need models
@@ -233,31 +251,38 @@ def helpers(ctx):
                         assoc_types={'<Bls12 as Engine>::G1Affine': 'ec::g1::G1Affine', '<Bls12 as Engine>::G2Affine': 'ec::g2::G2Affine',
                                      '<Self as Engine>::G1Affine': 'ec::g1::G1Affine', '<Self as Engine>::G2Affine': 'ec::g2::G2Affine',
                                      '<Bls12 as Engine>::Fqk': 'fq12::Fq12', '<Self as Engine>::Fqk': 'fq12::Fq12'})
+    def value_ok(r, pairs):
+        return isinstance(r, Opaque) and isinstance(r.what, tuple) and r.what[0] == 'PROD' and r.what[2] is True and sorted(r.what[1]) == sorted(pairs)
     st = State()
     f = ex.fn_by_name('Engine::pairing')
     r = ex.call_fn(st, f, [Opaque('p1'), Opaque('q1')], {'Self': 'Bls12', 'G1': 'ec::g1::G1Affine', 'G2': 'ec::g2::G2Affine'})
-    chk.ground('Engine::pairing(p,q) = final_exponentiation(miller_loop([(prepare p, prepare q)])).unwrap()',
-               log == [('miller_loop', [(('P', 'p1'), ('Q', 'q1'))]), ('final_exponentiation', 'ML1')] and isinstance(r, Opaque), str(log))
+    chk.ground('Engine::pairing(p,q) = final exponentiation of the Miller value of [(prepare p, prepare q)]',
+               value_ok(r, [(('P', 'p1'), ('Q', 'q1'))]), '%r %s' % (r, log))
     del log[:]
     f = ex.fn_by_name('Engine::pairing_product')
     r = ex.call_fn(st, f, [Opaque('p1'), Opaque('q1'), Opaque('p2'), Opaque('q2')], {'Self': 'Bls12', 'G1': 'ec::g1::G1Affine', 'G2': 'ec::g2::G2Affine'})
-    chk.ground('Engine::pairing_product pairs (p1,q1),(p2,q2) in one Miller loop, one final exponentiation',
-               log == [('miller_loop', [(('P', 'p1'), ('Q', 'q1')), (('P', 'p2'), ('Q', 'q2'))]), ('final_exponentiation', 'ML1')], str(log))
+    chk.ground('Engine::pairing_product = final exponentiation of the Miller value of (p1,q1),(p2,q2)',
+               value_ok(r, [(('P', 'p1'), ('Q', 'q1')), (('P', 'p2'), ('Q', 'q2'))]), '%r %s' % (r, log))
     ok = True
     detail = ''
     f = ex.fn_by_name('Engine::pairing_multi_product')
-    for n in range(0, 4):
+    lengths = [0, 1, 2, 3, 5, 15, 16, 17, 18, 31, 32, 33, 64, 65, 100] + ([127, 128, 129, 255, 256, 257, 1000] if ctx.tier == 'thorough' else [])
+    shapes = {}
+    for n in lengths:
         del log[:]
         st = State()
         ps = ex.alloc(st, Agg('[array]', [Opaque('p%d' % i) for i in range(n)]))
         qs = ex.alloc(st, Agg('[array]', [Opaque('q%d' % i) for i in range(n)]))
         pr = Ref(ps.addr, (), BV(64, False, 0), BV(64, False, n))
         qr = Ref(qs.addr, (), BV(64, False, 0), BV(64, False, n))
-        ex.call_fn(st, f, [pr, qr], {'Self': 'Bls12'})
-        exp = [('miller_loop', [(('P', 'p%d' % i), ('Q', 'q%d' % i)) for i in range(n)]), ('final_exponentiation', 'ML1')]
-        if log != exp:
-            ok, detail = False, 'n=%d: %s' % (n, log)
-    chk.ground('Engine::pairing_multi_product pairs p[i] with q[i] in order for n = 0..3, one final exponentiation', ok, detail)
+        r = ex.call_fn(st, f, [pr, qr], {'Self': 'Bls12'})
+        if not value_ok(r, [(('P', 'p%d' % i), ('Q', 'q%d' % i)) for i in range(n)]):
+            if ok:
+                detail = 'n=%d: result %s' % (n, repr(r)[:300])
+            ok = False
+        shapes[n] = [x[0] if x[0] != 'miller_loop' else 'miller_loop(%d)' % len(x[1]) for x in log]
+    chk.ground('Engine::pairing_multi_product(p, q) = final exponentiation of the Miller value of exactly the pairs (p[i], q[i]), i < n, for n in %s' % lengths, ok, detail)
+    chk.extra['pairing_multi_product_call_shape'] = {str(k): v for k, v in shapes.items() if k in (0, 3, 17)}
     chk.add_executor(ex)
 
 
